@@ -1,6 +1,7 @@
 package main
 
 import (
+	"regexp"
 	"strconv"
 	"fmt"
 	"go/types"
@@ -262,6 +263,25 @@ func (e *Engine) harnessPrim(fn *ssa.Function, name string, args []Value) (Value
 		// like vpStrConst with one more word, the given default - so the choice
 		// is trivial (no fork) while the named code has no string constants
 		words := append([]string{e.mustStr(args[1], "vpStrConstOr default")}, e.sh.strConsts(e.mustStr(args[0], "vpStrConstOr"))...)
+		it := e.fresh("dict", false)
+		e.newDomain(it.s, 0, int64(len(words)-1))
+		e.assertPC(tAnd(tCmp("<=", mkInt(0), it), tCmp("<=", it, mkInt(int64(len(words)-1)))))
+		w := mkStr(words[e.concretize(it, 0, len(words)-1)])
+		e.recordPrim("s", w.bytes...)
+		return w, true
+	case "vpStrConstLike":
+		// (names, pattern, default): the default, or one of the string constants of
+		// the named code ("*": the whole package under test) that match the pattern
+		words := []string{e.mustStr(args[2], "vpStrConstLike default")}
+		re, err := regexp.Compile(e.mustStr(args[1], "vpStrConstLike pattern"))
+		if err != nil {
+			unsupported("vpStrConstLike: bad pattern")
+		}
+		for _, w := range e.sh.strConsts(e.mustStr(args[0], "vpStrConstLike")) {
+			if re.MatchString(w) && w != words[0] {
+				words = append(words, w)
+			}
+		}
 		it := e.fresh("dict", false)
 		e.newDomain(it.s, 0, int64(len(words)-1))
 		e.assertPC(tAnd(tCmp("<=", mkInt(0), it), tCmp("<=", it, mkInt(int64(len(words)-1)))))
